@@ -144,6 +144,20 @@ Section Spec.
   Definition resident_cost (s : state) : Z :=
     fold_right (fun j z => (map_cost (smap s j) + z)%Z) 0%Z (nseq (c_shards c)).
 
+  (* shard i's policy tracks exactly the resident entries of shard i, at their costs
+     ("every write event reached the policy", and nothing stale is tracked) *)
+  Definition in_sync (s : state) (i : N) : Prop :=
+    let T := ptracked P (s_pol P (st_sh P s i)) in
+    NoDup (keys T) /\ forall k, lookup k T = option_map e_cost (afind k (smap s i)).
+
+  (* the C14 evict clause at shard i's current policy state, plus: an evict that
+     cannot free enough evicts everything it tracks *)
+  Definition evict_ok_at (s : state) (i : N) : Prop :=
+    forall n, let T := ptracked P (s_pol P (st_sh P s i)) in
+              let '(p', o) := pstep P (s_pol P (st_sh P s i)) (Evict n) in
+              exists vs rel, o = OVictims vs rel /\ evict_ok T (ptracked P p') n vs rel
+                             /\ (total T < n -> ptracked P p' = []).
+
   (** ** C16 *)
   Definition is_maint (o : op) : bool :=
     match o with OMaint _ | OJanitorTick _ _ | OJanitorSignal _ _ => true | _ => false end.
